@@ -24,7 +24,9 @@ for P in $PROPS; do
   case $P in C18) RUNS=400;; C14) RUNS=1400;; C13|C09|C20) RUNS=24;; esac
   REF=""
   for G in 1 4 16; do for REP in 1 2; do
-    H=$(GOMAXPROCS=$G $D/simcheck -prop $P -tier quick -seed 11 -runs $RUNS -budget 100000 -hashes 2>/dev/null | grep '^HASH' | grep -v 'run=1 ' | md5sum | cut -d' ' -f1)
+    mkdir -p /tmp/selftest-out
+    GOMAXPROCS=$G $D/simcheck -prop $P -tier quick -seed ${SELFTEST_SEED:-11} -runs $RUNS -budget 100000 -hashes 2>/dev/null | grep '^HASH' | grep -v 'run=1 ' | sort > /tmp/selftest-out/$P-g$G-r$REP.txt
+    H=$(md5sum < /tmp/selftest-out/$P-g$G-r$REP.txt | cut -d' ' -f1)
     [ -z "$REF" ] && REF=$H
     if [ "$H" != "$REF" ]; then echo "DETERMINISM-MISMATCH $P GOMAXPROCS=$G rep=$REP $H != $REF"; FAIL=1; fi
   done; done
